@@ -240,6 +240,13 @@ def _(n, T):
     return [F(n, "void", [P("v", "vec_out", T), P("k", "val", "int")])]
 
 
+@shape("vec_alloc", types=["int", "double"], langs=("c++",), wraps=("c", "fortran"), doc="vectors.yaml vector_iota_out_alloc / vector_iota_inout_alloc (+deref(allocatable))")
+def _(n, T):
+    return [F(n + "o", "void", [P("v", "vec_out", T, alloc=True)]),
+            F(n + "io", "void", [P("v", "vec_inout", T, alloc=True)]),
+            F(n + "kio", "int", [P("k", "val", "int"), P("v", "vec_inout", T, alloc=True)])]
+
+
 @shape("vec_inout", types=["int"], langs=("c++",), wraps=("c", "fortran"), doc="vectors.yaml vector_increment")
 def _(n, T):
     return [F(n, "void", [P("v", "vec_inout", T)])]
